@@ -51,15 +51,74 @@ Qed.
 Print Assumptions C12_bad_kind.
 
 (* ------------------------------------------------------------------ typed engines *)
-(* The statements above are about the generic node builders (basicnode).  For the typed builders of
-   the two engines (model: coq/Node/Typed.v, two types) only the repeated-key clause is stated, as
-   a property of single calls; the all-scripts theorem for them is not proved (C12_full). *)
-Require Import IP.Node.Typed IP.Proofs.NodeTyped.
+(* The same for the typed builders of the two engines (bindnode, generated code).  Model:
+   coq/Node/Typed.v — Msg3 structs, typed maps {String:T} and lists [T] of them, nested to any depth.
+   Grammar with injected rejections: coq/Node/TypedProtocol.v ([TScript e q ty v script]).
+   [tq_ok e q]: the quirk settings in which the protocol defects of engine e are off. *)
+Require Import IP.Node.Typed IP.Node.TypedProtocol IP.Proofs.NodeTypedAll IP.Proofs.NodeTyped.
 
-Definition C12_full : Prop :=
-  (forall q p v aops, AScriptP q p v aops ->
-     exists n, run_tol q (init p) (map fst aops) = (map snd aops, Some (SDone p n)) /\ abs n = v) /\
-  (forall e, typed_dup_statement e tpinned).
+(* Every legal script for a value v of type ty — entry shortcut or key assembler + value, fields in
+   any order, nested containers, AssignNode of conforming nodes, any size hints — with, at ANY position,
+   wrong-kind calls (roots, map values, list elements, int fields, key assemblers), repeated fields /
+   map keys through either path, unknown field names (generated code) and a Finish that comes too early
+   (missing field), has call by call exactly the annotated results and builds exactly v. *)
+Theorem C12_typed_all_scripts : forall e q ty v aops,
+  tq_ok e q -> TScript e q ty v aops ->
+  trun_tol e q (tinit ty) (map fst aops) = (map snd aops, Some (TDone v)) /\
+  tbuild e (TDone v) = Some (tval_dm e v).
+Proof. exact typed_all_scripts. Qed.
+Print Assumptions C12_typed_all_scripts.
+
+(* roll-back: a rejected request (repeated key or field through either path, unknown field, early
+   Finish) leaves the assembler where it was: run (pre ++ rejected ++ post) = run (pre ++ post) *)
+Theorem C12_typed_rollback : forall e q s0 pre_ops s rej post tr,
+  tq_ok e q -> trun_tol e q s0 pre_ops = (tr, Some s) -> Rejected e s rej ->
+  trun_tol e q s0 (pre_ops ++ map fst rej ++ post) = tpre (tr ++ map snd rej) (trun_tol e q s post) /\
+  trun_tol e q s0 (pre_ops ++ post) = tpre tr (trun_tol e q s post).
+Proof. exact typed_rollback. Qed.
+Print Assumptions C12_typed_rollback.
+
+(* a wrong-kind call is answered with an error by that call and changes nothing — for EVERY quirk
+   setting, at every kind of position *)
+Theorem C12_typed_bad_kind : forall e q,
+  (forall ty stk o, tpos stk ty -> pos_wrong ty o = true ->
+     tstep e q (TOpen stk) o = TErr TEWrong (TOpen stk)) /\
+  (forall done vals f r o c, IntTry (o, c) ->
+     exists err, c = TSErr err /\
+       tstep e q (TOpen (TStruct done vals (TsMidValue f) :: r)) o =
+       TErr err (TOpen (TStruct done vals (TsMidValue f) :: r))) /\
+  (forall done vals r o c, SKeyTry e (o, c) ->
+     exists err, c = TSErr err /\
+       tstep e q (TOpen (TStruct done vals TsMidKey :: r)) o = TErr err (TOpen (TStruct done vals TsMidKey :: r))) /\
+  (forall vt t r o c, TKeyTry (o, c) ->
+     exists err, c = TSErr err /\
+       tstep e q (TOpen (TMap vt t TmMidKey :: r)) o = TErr err (TOpen (TMap vt t TmMidKey :: r))).
+Proof. exact typed_bad_kind. Qed.
+Print Assumptions C12_typed_bad_kind.
+
+(* call orders the contract calls misuse (a second key before the value, Finish with a pending key or
+   value, AssembleValue with no key, any call after the builder finished) are outside [TScript]; the
+   generated code detects them (panic), bindnode keeps no protocol state (outside its model) *)
+Theorem C12_typed_misuse_detected : forall q r,
+  (forall done vals o, is_map_op o = true ->
+     tstep EGen q (TOpen (TStruct done vals TsMidKey :: r)) o = TPanic) /\
+  (forall done vals f o, is_map_op o = true -> o <> AssembleValue ->
+     tstep EGen q (TOpen (TStruct done vals (TsExpectValue f) :: r)) o = TPanic) /\
+  (forall done vals f o, is_map_op o = true ->
+     tstep EGen q (TOpen (TStruct done vals (TsMidValue f) :: r)) o = TPanic) /\
+  (forall vt t o, is_map_op o = true -> tstep EGen q (TOpen (TMap vt t TmMidKey :: r)) o = TPanic) /\
+  (forall vt t k o, is_map_op o = true -> o <> AssembleValue ->
+     tstep EGen q (TOpen (TMap vt t (TmExpectValue k) :: r)) o = TPanic) /\
+  (forall vt t k o, is_map_op o = true -> tstep EGen q (TOpen (TMap vt t (TmMidValue k) :: r)) o = TPanic) /\
+  (forall done vals, tstep EGen q (TOpen (TStruct done vals TsInitial :: r)) AssembleValue = TPanic) /\
+  (forall vt t, tstep EGen q (TOpen (TMap vt t TmInitial :: r)) AssembleValue = TPanic) /\
+  (forall v o, tstep EGen q (TDone v) o = TNoMethod).
+Proof. exact gen_misuse_panics. Qed.
+Print Assumptions C12_typed_misuse_detected.
+
+Theorem C12_typed_dup_ok : forall e q, tq_ok e q -> typed_dup_statement e q.
+Proof. exact typed_dup_ok. Qed.
+Print Assumptions C12_typed_dup_ok.
 
 Theorem C12_typed_dup_repaired : forall e, typed_dup_statement e trepaired.
 Proof. exact typed_dup_repaired. Qed.
@@ -69,6 +128,52 @@ Theorem C12_typed_dup_refuted : forall e, ~ typed_dup_statement e tpinned.
 Proof. exact typed_dup_refuted. Qed.
 Print Assumptions C12_typed_dup_refuted.
 
+(* non-vacuity: a struct in a map in a list, with every kind of rejection injected, is in the grammar
+   and runs as annotated *)
+Theorem C12_typed_nested_example :
+  (forall q, TScript EGen q (TyL (TyM TyS)) nested_value nested_script) /\
+  trun_tol EGen trepaired (tinit (TyL (TyM TyS))) (map fst nested_script) =
+    (map snd nested_script, Some (TDone nested_value)).
+Proof. split; [exact nested_script_legal|exact nested_script_runs]. Qed.
+Print Assumptions C12_typed_nested_example.
+
+(* ---- the pinned tree: the all-scripts statement fails there, one witness per known finding *)
+Definition C12_full : Prop :=
+  (forall q p v aops, AScriptP q p v aops ->
+     exists n, run_tol q (init p) (map fst aops) = (map snd aops, Some (SDone p n)) /\ abs n = v) /\
+  (forall e, typed_all_scripts_pinned e) /\
+  (forall e, treset_ok e tpinned = true).
+
+(* bind_struct_dup_accepted *)
+Theorem C12_typed_refuted_bind_struct_dup : ~ typed_all_scripts_pinned EBind.
+Proof. exact bind_struct_dup_refuted. Qed.
+Print Assumptions C12_typed_refuted_bind_struct_dup.
+
+(* bind_map_dup_accepted *)
+Theorem C12_typed_refuted_bind_map_dup :
+  TScript EBind trepaired (TyM TyS) (TVM [(k_a, TVS s123)]) dup_mapkey_entry_script /\
+  trun_tol EBind tpinned (tinit (TyM TyS)) (map fst dup_mapkey_entry_script) <>
+  (map snd dup_mapkey_entry_script, Some (TDone (TVM [(k_a, TVS s123)]))).
+Proof. split; [exact (dup_mapkey_entry_legal EBind trepaired)|exact bind_map_dup_refuted]. Qed.
+Print Assumptions C12_typed_refuted_bind_map_dup.
+
+(* gen_map_keypath_dup_accepted *)
+Theorem C12_typed_refuted_gen_map_keypath : ~ typed_all_scripts_pinned EGen.
+Proof. exact gen_map_keypath_refuted. Qed.
+Print Assumptions C12_typed_refuted_gen_map_keypath.
+
+(* gen_map_assignnode_foreign_panic *)
+Theorem C12_typed_refuted_gen_map_node :
+  TScript EGen trepaired (TyM TyS) (TVM [(k_a, TVS s123)]) [tok (AssignNode plain_map_a)] /\
+  trun_tol EGen tpinned (tinit (TyM TyS)) [AssignNode plain_map_a] = ([TSPanic], None).
+Proof. split; [exact gen_map_node_legal|exact (proj1 gen_map_node_refuted)]. Qed.
+Print Assumptions C12_typed_refuted_gen_map_node.
+
+(* bind_reset_panics *)
+Theorem C12_typed_refuted_bind_reset : treset_ok EBind tpinned = false /\ treset_ok EBind trepaired = true.
+Proof. exact bind_reset_refuted. Qed.
+Print Assumptions C12_typed_refuted_bind_reset.
+
 Theorem C12_full_refuted : ~ C12_full.
-Proof. intros [_ H]. exact (typed_dup_refuted EBind (H EBind)). Qed.
+Proof. intros [_ [H _]]. exact (bind_struct_dup_refuted (H EBind)). Qed.
 Print Assumptions C12_full_refuted.
